@@ -807,3 +807,144 @@ pub fn validate_str(eh: &ExtendedHeader) -> String {
     };
     format!("{v} {}", oracle_words(eh, ""))
 }
+
+// ---------- commits in which a validator appears several times ----------
+
+/// one entry of a crafted commit, relative to a TRUSTED set (indices) and a pool of strangers
+#[derive(Clone, Copy, Debug, PartialEq)]
+pub enum Slot {
+    /// block-commit entry validly signed by trusted validator i
+    Trusted(usize),
+    /// block-commit entry validly signed by stranger k (same k = same key and address)
+    Stranger(usize),
+    Absent,
+    /// signed nil vote of trusted validator i
+    NilOf(usize),
+}
+
+/// Commits whose power COUNTED WITH MULTIPLICITY differs from the power of the DISTINCT trusted
+/// signers, around the threshold `needed = floor(num*total/den)`: one validator repeated until the
+/// repeated power crosses the threshold (and one copy fewer), a distinct fill at/below the
+/// threshold plus repeats of one member (repeats last / first / scattered among strangers, absent
+/// and nil entries), repeated strangers (must not count at all), repeats after and before the
+/// early exit.
+pub fn multiplicity_plans(rng: &mut Rng, powers: &[u64], total: u64, num: u64, den: u64) -> Vec<(Vec<Slot>, &'static str)> {
+    let n = powers.len();
+    let mut out: Vec<(Vec<Slot>, &'static str)> = vec![];
+    if den == 0 || n == 0 {
+        return out;
+    }
+    let needed = (num as u128 * total as u128 / den as u128).min(u64::MAX as u128) as u64;
+    // 1. one validator repeated
+    let mut idxs: Vec<usize> = (0..n).collect();
+    rng.shuffle(&mut idxs);
+    for &i in idxs.iter().take(3) {
+        let p = powers[i];
+        if p == 0 || p > needed {
+            continue;
+        }
+        let k = (needed / p + 1) as usize;
+        if k > 12 {
+            continue;
+        }
+        out.push((vec![Slot::Trusted(i); k], "mult/one-validator-over"));
+        if k >= 3 {
+            out.push((vec![Slot::Trusted(i); k - 1], "mult/one-validator-under"));
+        }
+        let mut v = vec![Slot::Stranger(0), Slot::Trusted(i), Slot::Absent];
+        for _ in 1..k {
+            v.push(Slot::Stranger(1));
+            v.push(Slot::Trusted(i));
+        }
+        out.push((v, "mult/one-validator-over-spread"));
+    }
+    // 2. distinct fill at or below the threshold, then repeats of one member
+    let mut d: Vec<usize> = vec![];
+    let mut sum = 0u64;
+    for &i in &idxs {
+        if powers[i] > 0 && sum + powers[i] <= needed {
+            d.push(i);
+            sum += powers[i];
+        }
+    }
+    if let Some(&m) = d.iter().max_by_key(|&&i| powers[i]) {
+        let extra = ((needed - sum) / powers[m] + 1) as usize;
+        if extra <= 12 {
+            let exact = sum == needed;
+            let base: Vec<Slot> = d.iter().map(|&i| Slot::Trusted(i)).collect();
+            let mut a = base.clone();
+            a.extend(vec![Slot::Trusted(m); extra]);
+            out.push((a, if exact { "mult/boundary-exact-dup-last" } else { "mult/fill-dup-last" }));
+            let mut b = vec![Slot::Trusted(m); extra];
+            b.extend(base.clone());
+            out.push((b, if exact { "mult/boundary-exact-dup-first" } else { "mult/fill-dup-first" }));
+            let mut c = base.clone();
+            c.extend(vec![Slot::Trusted(m); extra]);
+            for _ in 0..rng.range(1, 3) {
+                c.push(Slot::Stranger(rng.usize(0, 1)));
+            }
+            c.push(Slot::Absent);
+            if let Some(&o) = idxs.iter().find(|i| !d.contains(i)) {
+                c.push(Slot::NilOf(o));
+            }
+            rng.shuffle(&mut c);
+            out.push((c, if exact { "mult/boundary-exact-dup-scattered" } else { "mult/fill-dup-scattered" }));
+            // the distinct fill alone (no repeats): rejected with not-enough by everybody
+            out.push((base.clone(), if exact { "mult/boundary-exact-no-dup" } else { "mult/fill-no-dup" }));
+        }
+        // 3. repeated strangers must not count
+        let mut s = base_of(&d);
+        s.extend([Slot::Stranger(0), Slot::Stranger(0), Slot::Stranger(0), Slot::Stranger(1), Slot::Stranger(1)]);
+        if rng.bool() {
+            rng.shuffle(&mut s);
+        }
+        out.push((s, "mult/stranger-repeats"));
+    } else {
+        out.push((vec![Slot::Stranger(0), Slot::Stranger(0), Slot::Stranger(0)], "mult/stranger-repeats-only"));
+    }
+    // 4. repeats after / before the early exit
+    let mut over: Vec<usize> = d.clone();
+    let mut osum = sum;
+    for &i in &idxs {
+        if osum > needed {
+            break;
+        }
+        if !over.contains(&i) && powers[i] > 0 {
+            over.push(i);
+            osum += powers[i];
+        }
+    }
+    if osum > needed && !over.is_empty() {
+        let first = over[0];
+        let mut a = base_of(&over);
+        a.push(Slot::Trusted(first));
+        out.push((a, "mult/repeat-after-exit"));
+        if over.len() >= 2 {
+            let mut b = vec![Slot::Trusted(first), Slot::Trusted(first)];
+            b.extend(base_of(&over[1..]));
+            out.push((b, "mult/repeat-before-exit"));
+        }
+    }
+    out
+}
+
+fn base_of(d: &[usize]) -> Vec<Slot> {
+    d.iter().map(|&i| Slot::Trusted(i)).collect()
+}
+
+/// fixed power shapes for the multiplicity cases: 4 equal (one validator twice = 1/2 > 1/3 while
+/// distinct 1/4), 8 equal (three copies of a 1/8 validator), 3 equal (exact third), 6 equal, …
+pub fn multiplicity_power_shapes(rng: &mut Rng) -> Vec<Vec<u64>> {
+    let k = rng.range(1, 1000);
+    vec![
+        vec![1; 4],
+        vec![k; 4],
+        vec![1; 8],
+        vec![1; 3],
+        vec![1; 6],
+        vec![2, 1, 1, 1, 1],
+        vec![5, 3, 3, 2, 2],
+        (0..rng.usize(2, 10)).map(|_| rng.range(1, 12)).collect(),
+        (0..rng.usize(2, 10)).map(|_| rng.range(1, 1_000_000)).collect(),
+    ]
+}
